@@ -33,6 +33,9 @@ pub struct RealCfg {
     /// it grow linearly above the threshold)
     #[serde(default)]
     pub policy_t: Option<u8>,
+    /// yields of the consumer per handled record / set (a slow consumer lets the reader run ahead as far as it can)
+    #[serde(default)]
+    pub consumer_yields: u8,
 }
 
 /// `DoubleUntil(t)` with a guard: a policy answer that does not grow would make the reader thread spin forever
@@ -56,6 +59,8 @@ pub struct Chunked {
     data: Vec<u8>,
     pos: usize,
     chunk: usize,
+    /// source position, visible to the consumer side (reader lead, C16)
+    progress: Arc<std::sync::atomic::AtomicUsize>,
 }
 impl Read for Chunked {
     fn read(&mut self, buf: &mut [u8]) -> std::io::Result<usize> {
@@ -65,6 +70,7 @@ impl Read for Chunked {
         }
         buf[..n].copy_from_slice(&self.data[self.pos..self.pos + n]);
         self.pos += n;
+        self.progress.store(self.pos, std::sync::atomic::Ordering::SeqCst);
         Ok(n)
     }
 }
@@ -152,7 +158,7 @@ pub fn sequential(c: &RealCfg) -> (Vec<(usize, u64)>, Option<String>) {
 /// (the reader thread of the parallel functions does exactly that, whatever the schedule)
 pub fn max_batch(c: &RealCfg) -> usize {
     let doc = document(c);
-    let src = Chunked { data: doc, pos: 0, chunk: c.chunk as usize };
+    let src = Chunked { data: doc, pos: 0, chunk: c.chunk as usize, progress: Default::default() };
     let mut m = 0;
     if c.fastq {
         let mut r = fastq::Reader::with_capacity(src, c.cap);
@@ -213,6 +219,8 @@ pub struct RealObs {
     /// api 2: record indices per received set
     pub sets: Vec<Vec<usize>>,
     pub set_buf_caps: Vec<usize>,
+    /// (record index, source position) observed by the consumer when it handles a record (C16: reader lead)
+    pub lead: Vec<(usize, usize)>,
     pub data_inits: usize,
     pub data_init_failed: bool,
     pub rset_inits: usize,
@@ -241,6 +249,8 @@ macro_rules! per_record_apis {
         let stop = c.stop_after;
         let yields = c.work_yields;
         let mut n_seen = 0usize;
+        let progress_f = PROGRESS.with(|p| p.borrow().clone());
+        let cons_yields = c.consumer_yields;
         let work = move |rec: $rec, d: &mut u64| {
             late(&o_w, "work");
             for _ in 0..yields {
@@ -251,7 +261,15 @@ macro_rules! per_record_apis {
         let mut func = move |rec: $rec, d: &mut u64| {
             late(&o_f, "func");
             let (idx, h) = $hashfn(&rec);
-            o_f.lock().unwrap().seen.push((idx, *d == h, h));
+            {
+                let mut g = o_f.lock().unwrap();
+                g.seen.push((idx, *d == h, h));
+                let pos = progress_f.load(std::sync::atomic::Ordering::SeqCst);
+                g.lead.push((idx, pos));
+            }
+            for _ in 0..cons_yields {
+                crate::sys::yield_now();
+            }
             n_seen += 1;
             if let Some(k) = stop {
                 if n_seen >= k as usize {
@@ -314,15 +332,51 @@ macro_rules! per_record_apis {
     }};
 }
 
+thread_local! {
+    /// progress counter of the execution currently being set up on this OS thread (shuttle runs all tasks of an
+    /// execution on the runner's thread; the real-thread fallback creates the readers on the calling thread too)
+    static PROGRESS: std::cell::RefCell<Arc<std::sync::atomic::AtomicUsize>> = std::cell::RefCell::new(Default::default());
+}
+
 fn mk_fa(doc: Vec<u8>, cap: usize, chunk: u8) -> fasta::Reader<Chunked> {
-    fasta::Reader::with_capacity(Chunked { data: doc, pos: 0, chunk: chunk as usize }, cap)
+    let progress = PROGRESS.with(|p| p.borrow().clone());
+    fasta::Reader::with_capacity(Chunked { data: doc, pos: 0, chunk: chunk as usize, progress }, cap)
 }
 fn mk_fq(doc: Vec<u8>, cap: usize, chunk: u8) -> fastq::Reader<Chunked> {
-    fastq::Reader::with_capacity(Chunked { data: doc, pos: 0, chunk: chunk as usize }, cap)
+    let progress = PROGRESS.with(|p| p.borrow().clone());
+    fastq::Reader::with_capacity(Chunked { data: doc, pos: 0, chunk: chunk as usize, progress }, cap)
+}
+
+/// (index of the last record, source position after the fill) for every batch of sequential plain set reading,
+/// plus the source position after the final call that reports the end / the error
+pub fn sequential_batches(c: &RealCfg) -> (Vec<(usize, usize)>, usize) {
+    let doc = document(c);
+    let progress: Arc<std::sync::atomic::AtomicUsize> = Default::default();
+    let src = Chunked { data: doc, pos: 0, chunk: c.chunk as usize, progress: progress.clone() };
+    let mut v = Vec::new();
+    let mut n = 0usize;
+    let guard = GuardedDoubleUntil { t: c.policy_t.map_or(1 << 23, |t| t.max(1) as usize) };
+    if c.fastq {
+        let mut r = fastq::Reader::with_capacity(src, c.cap).set_policy(guard);
+        let mut set = fastq::RecordSet::default();
+        while let Some(Ok(())) = r.read_record_set(&mut set) {
+            n += set.len();
+            v.push((n - 1, progress.load(std::sync::atomic::Ordering::SeqCst)));
+        }
+    } else {
+        let mut r = fasta::Reader::with_capacity(src, c.cap).set_policy(guard);
+        let mut set = fasta::RecordSet::default();
+        while let Some(Ok(())) = r.read_record_set(&mut set) {
+            n += set.len();
+            v.push((n - 1, progress.load(std::sync::atomic::Ordering::SeqCst)));
+        }
+    }
+    (v, progress.load(std::sync::atomic::Ordering::SeqCst))
 }
 
 /// One execution; must be called inside shuttle.
 pub fn execute_real(c: &RealCfg, obs: &SharedReal) {
+    PROGRESS.with(|p| *p.borrow_mut() = Default::default());
     let doc = document(c);
     let res: Result<bool, RealE> = if c.api == 3 {
         // the generic per-record function over any parallel::Reader whose data set iterates over records
@@ -330,6 +384,8 @@ pub fn execute_real(c: &RealCfg, obs: &SharedReal) {
         let yields = c.work_yields;
         let (o_w, o_f) = (obs.clone(), obs.clone());
         let mut n_seen = 0usize;
+        let progress3 = PROGRESS.with(|p| p.borrow().clone());
+        let cons_yields3 = c.consumer_yields;
         if c.fastq {
             let reader = mk_fq(doc, c.cap, c.chunk);
             parallel_records(
@@ -346,7 +402,14 @@ pub fn execute_real(c: &RealCfg, obs: &SharedReal) {
                 move |rec: fastq::RefRecord, d: &u64| {
                     late(&o_f, "func");
                     let (idx, h) = fq_hash(&rec);
-                    o_f.lock().unwrap().seen.push((idx, *d == h, h));
+                    {
+                        let mut g = o_f.lock().unwrap();
+                        g.seen.push((idx, *d == h, h));
+                        g.lead.push((idx, progress3.load(std::sync::atomic::Ordering::SeqCst)));
+                    }
+                    for _ in 0..cons_yields3 {
+                        crate::sys::yield_now();
+                    }
                     n_seen += 1;
                     match stop {
                         Some(k) if n_seen >= k as usize => Some(()),
@@ -372,7 +435,14 @@ pub fn execute_real(c: &RealCfg, obs: &SharedReal) {
                 move |rec: fasta::RefRecord, d: &u64| {
                     late(&o_f, "func");
                     let (idx, h) = fa_hash(&rec);
-                    o_f.lock().unwrap().seen.push((idx, *d == h, h));
+                    {
+                        let mut g = o_f.lock().unwrap();
+                        g.seen.push((idx, *d == h, h));
+                        g.lead.push((idx, progress3.load(std::sync::atomic::Ordering::SeqCst)));
+                    }
+                    for _ in 0..cons_yields3 {
+                        crate::sys::yield_now();
+                    }
                     n_seen += 1;
                     match stop {
                         Some(k) if n_seen >= k as usize => Some(()),
@@ -395,6 +465,8 @@ pub fn execute_real(c: &RealCfg, obs: &SharedReal) {
         let yields = c.work_yields;
         let o_w = obs.clone();
         let o_f = obs.clone();
+        let progress2 = PROGRESS.with(|p| p.borrow().clone());
+        let cons_yields2 = c.consumer_yields;
         if c.fastq {
             let reader = mk_fq(doc, c.cap, c.chunk).set_policy(GuardedDoubleUntil { t: c.policy_t.map_or(1 << 23, |t| t.max(1) as usize) });
             read_parallel(
@@ -418,6 +490,10 @@ pub fn execute_real(c: &RealCfg, obs: &SharedReal) {
                         };
                         let mut g = o_f.lock().unwrap();
                         let mut idxs = Vec::new();
+                        let pos_now = progress2.load(std::sync::atomic::Ordering::SeqCst);
+                        if let Some(first) = set.into_iter().next() {
+                            g.lead.push((fq_hash(&first).0, pos_now));
+                        }
                         for (j, rec) in set.into_iter().enumerate() {
                             let (idx, h) = fq_hash(&rec);
                             g.seen.push((idx, out.get(j) == Some(&h), h));
@@ -429,6 +505,10 @@ pub fn execute_real(c: &RealCfg, obs: &SharedReal) {
                         }
                         g.sets.push(idxs);
                         g.set_buf_caps.push(set.buf_capacity());
+                        drop(g);
+                        for _ in 0..cons_yields2 {
+                            crate::sys::yield_now();
+                        }
                         if let Some(k) = stop {
                             if n >= k as usize {
                                 return Ok(true);
@@ -461,6 +541,10 @@ pub fn execute_real(c: &RealCfg, obs: &SharedReal) {
                         };
                         let mut g = o_f.lock().unwrap();
                         let mut idxs = Vec::new();
+                        let pos_now = progress2.load(std::sync::atomic::Ordering::SeqCst);
+                        if let Some(first) = set.into_iter().next() {
+                            g.lead.push((fa_hash(&first).0, pos_now));
+                        }
                         for (j, rec) in set.into_iter().enumerate() {
                             let (idx, h) = fa_hash(&rec);
                             g.seen.push((idx, out.get(j) == Some(&h), h));
@@ -472,6 +556,10 @@ pub fn execute_real(c: &RealCfg, obs: &SharedReal) {
                         }
                         g.sets.push(idxs);
                         g.set_buf_caps.push(set.buf_capacity());
+                        drop(g);
+                        for _ in 0..cons_yields2 {
+                            crate::sys::yield_now();
+                        }
                         if let Some(k) = stop {
                             if n >= k as usize {
                                 return Ok(true);
@@ -486,6 +574,46 @@ pub fn execute_real(c: &RealCfg, obs: &SharedReal) {
     let mut g = obs.lock().unwrap();
     g.result = Some(res);
     g.returned = true;
+}
+
+/// C16 for the convenience wrappers too (read_parallel, parallel_fasta/fastq, parallel_records take the queue length
+/// and pass it on): while the consumer handles a record of batch b, the reader cannot have filled more than the
+/// queue_len batches behind it, i.e. the source position is at most the position after batch b + queue_len of
+/// sequential reading (the batches of the reader thread are those of sequential plain set reading).
+pub fn check_lead(c: &RealCfg, o: &RealObs) -> CheckResult {
+    let f = if c.fastq { "fastq" } else { "fasta" };
+    if c.api == 1 && (c.reader_init_fails || c.rset_init_fail_at.is_some()) {
+        return Ok(());
+    }
+    let (batches, end_pos) = sequential_batches(c);
+    // batches may arrive out of file order (several workers): what bounds the reader is the NUMBER of batches the
+    // consumer has received so far (k, including the one it is handling): filled batches <= queue_len + k
+    let mut received: Vec<usize> = Vec::new();
+    for (idx, pos) in &o.lead {
+        let b = match batches.iter().position(|(last, _)| idx <= last) {
+            Some(b) => b,
+            None => continue,
+        };
+        if !received.contains(&b) {
+            received.push(b);
+        }
+        let k = received.len();
+        let last_filled = c.queue_len + k - 1; // 0-based index of the last batch that can have been filled
+        let allowed = if last_filled < batches.len() { batches[last_filled].1 } else { end_pos };
+        ensure!(
+            *pos <= allowed,
+            format!("real/{}/reader-too-far-ahead", f),
+            "while the consumer handled record {} (batch {}, the {}. batch it received), the reader had already read {} bytes of the input; with queue length {} it can have filled at most {} batches (source position {})",
+            idx,
+            b,
+            k,
+            pos,
+            c.queue_len,
+            c.queue_len + k,
+            allowed
+        );
+    }
+    Ok(())
 }
 
 /// Oracle for the real tier (covers the C07 / C08 / C15 / C16 clauses that concern real readers).
